@@ -212,11 +212,12 @@ func (c *FakeConn) Close() error {
 	c.mu.Lock()
 	already := c.closed
 	c.closed = true
-	c.cond.Broadcast()
-	c.mu.Unlock()
 	if !already {
+		// recorded before anyone waiting for the closure can go on (and start the next scenario)
 		c.emit(E{"e": "cl"})
 	}
+	c.cond.Broadcast()
+	c.mu.Unlock()
 	return nil
 }
 
